@@ -219,6 +219,17 @@ fn run(ctx: &Ctx) -> Part {
                     }
                 }
                 acc.count("depth3_programs", (ops.len() * ops.len()) as u64);
+                // draw / change the orientation to one with the same logical size / draw again
+                // (a cached window or offset that survives the orientation change shows here)
+                for o2 in 0..8u8 {
+                    if (o2 & 1) != (cfg.orient & 1) || o2 == cfg.orient {
+                        continue;
+                    }
+                    for c in &ops {
+                        check_one(ctx, &mut acc, cfg, &[ops[*i].clone(), Op::SetOrientation(o2), c.clone()], &mut states);
+                        acc.count("depth3_programs_with_orientation_change", 1);
+                    }
+                }
                 acc.states += states.len() as u64;
                 acc
             })
